@@ -76,8 +76,9 @@ impl Parseable for GlobalOption {
     fn parse(input: &mut &'_ str) -> PResult<GlobalOption> {
         alt((
             literal("-depth").value(GlobalOption::Depth),
-            unary!("-maxdepth", GlobalOption::MaxDepth, u32::parse),
-            unary!("-mindepth", GlobalOption::MinDepth, u32::parse),
+            // Disabled in LiPE (see RunOptions): refuse them with an error instead of crashing on registration
+            unary!("-maxdepth", GlobalOption::MaxDepth, u32::parse).verify(|_| false),
+            unary!("-mindepth", GlobalOption::MinDepth, u32::parse).verify(|_| false),
             unary!("-threads", GlobalOption::Threads, u32::parse),
         ))
         .context(label("global_option"))
